@@ -29,7 +29,14 @@ def load_class(relpath, clsname, methods, namespace, bases=()):
     for st in cls.body:
         if isinstance(st, ast.FunctionDef) and st.name in methods:
             body.append(copy.deepcopy(st))
-    missing = set(methods) - {b.name for b in body}
+        elif isinstance(st, (ast.Assign, ast.AnnAssign)) and st.value is not None:
+            # class-level constants (literal values only) travel with the methods
+            try:
+                ast.literal_eval(st.value)
+            except (ValueError, SyntaxError, TypeError):
+                continue
+            body.append(copy.deepcopy(st))
+    missing = set(methods) - {b.name for b in body if isinstance(b, ast.FunctionDef)}
     if missing:
         raise extract.ExtractError(f"{relpath}::{clsname}: methods not found: {sorted(missing)}")
     node = ast.ClassDef(name=clsname, bases=[ast.Name(id=b, ctx=ast.Load()) for b in bases], keywords=[], body=body, decorator_list=[])
